@@ -244,7 +244,7 @@ def _interactive(cmds, hf):
     e = dict(lib.BASE_ENV)
     e["HISTFILE"] = hf
     try:
-        p = subprocess.run([lib.BRUSH, "--norc", "--noprofile", "--no-config", "-i", "--input-backend", "minimal"],
+        p = lib.sp_run([lib.BRUSH, "--norc", "--noprofile", "--no-config", "-i", "--input-backend", "minimal"],
                            input=("\n".join(cmds) + "\n").encode(), stdout=subprocess.PIPE, stderr=subprocess.PIPE,
                            env=e, timeout=30)
         return {"rc": p.returncode, "timeout": False, "out": p.stdout.decode("utf-8", "replace")}
